@@ -4,7 +4,6 @@ import (
 	"fmt"
 	"go/ast"
 	"math/big"
-	"os"
 	"sort"
 
 	"golang.org/x/tools/go/packages"
